@@ -318,7 +318,7 @@ if "C10" in which:
     ])
 
 if "C07" in which:
-    put("C07", "Codec.Varint Codec.NV Codec.Vars Parser.ReqWire Parser.ReqTargets Async.ConnTotal Async.ConnReads Async.LoopTargets Async.LoopProofs Async.PeerTargets4 Async.PeerProofs4", [
+    put("C07", "Codec.Varint Codec.NV Codec.Vars Parser.ReqWire Parser.ReqTargets Async.ConnTotal Async.ConnReads Async.LoopTargets Async.LoopProofs Async.PeerTargets4 Async.PeerProofs4 Async.LogTargets Async.LogProofs", [
         ("'exactly that request': Token::parse_request IS a read schedule of the request parser whose chunks are the transport reads — "
          "whatever the transport does (any read sizes, Pending, any write pattern)", "parse_request_sched", "C07_parse_request_is_a_schedule", ["parse_request_sched_stmt"]),
         ("a reused connection's parser (leftover L of the previous request in its buffer) behaves exactly like a fresh parser fed L first", "leftover_as_fed", "C07_leftover_as_fed", ["leftover_as_fed_stmt"]),
@@ -337,6 +337,14 @@ if "C07" in which:
          "erases to run_loop: C07_trace_is_ghost; a prefix of the sent requests if the connection ends early) — on a fault-free "
          "transport, for every handler script (abandoned reads included), readiness pattern and buffer size",
          "requests_in_order", "C07_requests_in_order", ["requests_in_order_stmt"]),
+        ("the log-keeping loop `run_loop_log` (Async/LogTargets.v) is run_loop with a ghost record per handler invocation; erasing it "
+         "gives run_loop", "run_loop_log_erase", "C07_log_is_ghost", ["run_loop_log_erase_stmt"]),
+        ("MAIN, the transport log of a whole connection, for EVERY client, transport (faults included), handler scripts and buffer "
+         "size: the handler invocations, in order, each satisfy entry_ok - the log only grows while the handler runs, and when close "
+         "completed what it appended is some parser replies, then (if the request had become writeable) the empty Stdout and Stderr "
+         "records, then ONE EndRequest with the invocation's status (the handler's own, or ABORT for the client's abort) and the id "
+         "of the request the handler was started with, nothing else -, they are chained (an invocation starts after the previous one "
+         "was closed) and the final log extends the last entry", "connection_log", "C07_connection_log", ["connection_log_stmt"]),
     ], tail='''(* non-vacuity of C07_handler_sees_exactly_the_request: a concrete connection (B = 160, a GetValues junk record inside
    the preamble, leftover = 5 bytes, two client segments, Pending reads and writes) satisfies every hypothesis *)
 Example C07_handler_sees_example : forall s0 w', lp_run = Ok (inl s0) w' ->
